@@ -28,6 +28,42 @@ if sys.argv[1] == "update":
             json.dump(m, open(p, "w"), indent=1)
             n += 1
     print(f"updated {n} of {len(res)} results")
+elif sys.argv[1] == "final":
+    # tools/seeded_meta.py final <matrix-log> ... : records the own-property result of the final
+    # matrix (checks as committed) in every meta.json
+    res = {}
+    for log in sys.argv[2:]:
+        for l in open(log):
+            m = re.match(r"^(C\d\d-[\w-]+): caught by:(.*)$", l.strip())
+            if m:
+                res[m.group(1)] = [x for x in m.group(2).split() if x != "NONE"]
+    n = 0
+    for p, m in metas():
+        if m["id"] in res:
+            m["final_matrix"] = {"caught_by": res[m["id"]], "own_check_caught": m["property"] in res[m["id"]]}
+            json.dump(m, open(p, "w"), indent=1)
+            n += 1
+    print(f"updated {n} of {len(res)} results")
+elif sys.argv[1] == "design":
+    # the table of DESIGN 10.5
+    rows = list(metas())
+    print("| seeded change | round | own check, first run | own check, final | also caught by |")
+    print("|---|---|---|---|---|")
+    first_missed = final_missed = 0
+    for p, m in rows:
+        b = m.get("own_check_before_strengthening")
+        if b is None:
+            c = m.get("caught_by_at_first_try")
+            first = "?" if c is None else ("caught" if m["property"] in c else "**missed**")
+        else:
+            first = "caught" if b["caught"] else "**missed**"
+        f = m.get("final_matrix")
+        final = "?" if f is None else ("caught" if f["own_check_caught"] else "**missed**")
+        others = "" if f is None else ", ".join(x for x in f["caught_by"] if x != m["property"])
+        first_missed += first == "**missed**"
+        final_missed += final == "**missed**"
+        print(f"| {m['id']} | {m.get('round', 1)} | {first} | {final} | {others} |")
+    print(f"\n{len(rows)} changes; own check missed at first run: {first_missed}; at the final matrix: {final_missed}")
 elif sys.argv[1] == "table":
     print("| seeded change | round | caught by (quick tier) | own check |")
     print("|---|---|---|---|")
